@@ -9,7 +9,8 @@ Op vocabulary (positional arguments first, `o=<slot>` selects the array, default
   it_new | it_next | it_remove | it_add v | it_replace v | it_index
   zit_new o=<k> p=<j> (p = k allowed: the same array on both sides) | zit_next | zit_remove | zit_add v w | zit_replace v w | zit_index
   mk_sub b e to=<k> | mk_copy_shallow to=<k> | mk_copy_deep to=<k> | mk_filter to=<k>
-  drop o=<k> | destroy | destroy_cb
+  mk_new to=<k> cap=<n> exp=<decimal> | mk_new_default to=<k>   (a further independent array in a free slot)
+  drop o=<k> | destroy | destroy_cb | observe
 
 focus: None (C01 core ops only), "iter", "derived", "sort", "reject", "growth", "fault", "all".
 No `fail=` is ever generated (the runner adds refusals).
@@ -113,6 +114,12 @@ class ArrayGen:
             out += self.same_array_zips()
         if focus in ("sort", "all"):
             out += self.sort_mutate_sort()
+        if focus in ("derived", "all"):
+            for conf_first in (True, False):
+                for k, dst in ((1, 2), (2, 1), (3, 1)):
+                    for cap, ex in ((1, "2"), (2, "1.5"), (8, "2")):
+                        for head in ("new cap=2 exp=2", "new_default"):
+                            out.append([head] + self.recreate_other_triple(k, dst, conf_first, cap, ex) + ["add 1", "destroy"])
         if focus in ("reject", "all"):
             # capacities whose byte size is absurd or wraps (A9): 2^61-1 is refused by the allocator,
             # 2^61 and above are invalid
@@ -152,6 +159,22 @@ class ArrayGen:
                 out.append(["new cap=4 exp=1.5"] + fill + [s1, mk, "reverse o=1", "add 0 o=1", s2 + " o=1", "get_at 0 o=1",
                                                             "get_last o=1", "reverse", s2, "get_at 0", "map o=1", "destroy"])
         return out
+
+    def recreate_other_triple(self, k=1, dst=2, conf_first=True, cap=2, ex="2", vals=(2, 5, 4, 7)):
+        """an array is built in slot k, used, destroyed, and immediately re-created in the same slot with the
+        OTHER allocator triple (nothing is allocated in between, so the allocator may hand out the same
+        addresses); then every builder derives an array from it, the derived array is grown by appends,
+        observed and dropped.  Anything remembered about the first array by address (configuration,
+        allocators) is stale for the second."""
+        mk_a = f"mk_new to={k} cap={cap} exp={ex}"
+        mk_b = f"mk_new_default to={k}"
+        first, second = (mk_a, mk_b) if conf_first else (mk_b, mk_a)
+        ops = [first, f"add 1 o={k}", f"add 3 o={k}", f"drop o={k}", second] + [f"add {v} o={k}" for v in vals]
+        for b in (f"mk_sub 1 2 to={dst} o={k}", f"mk_copy_shallow to={dst} o={k}", f"mk_copy_deep to={dst} o={k}",
+                  f"mk_filter to={dst} o={k}"):
+            ops += [b] + [f"add {10 + i} o={dst}" for i in range(7)] + ["observe", f"capacity o={dst}", f"drop o={dst}"]
+        ops += [f"add 6 o={k}", "observe", f"drop o={k}"]
+        return ops
 
     def same_array_zips(self):
         """zip iterator with the same array on both sides, at capacities 1-4 with exactly 0 or 1 free
@@ -194,6 +217,12 @@ class ArrayGen:
         length = rng.randint(1, 60)
         if focus == "growth":
             length = rng.randint(20, 120)
+        if focus in ("derived", "all") and rng.random() < 0.3:
+            # early in the history: destroy + re-creation in the same slot with the other allocator triple
+            k, dst = rng.choice([(1, 2), (2, 1), (3, 2), (1, 3)])
+            vals = tuple(pick_value(rng) for _ in range(rng.randint(2, 5)))
+            ops += self.recreate_other_triple(k, dst, rng.random() < 0.5, rng.randint(1, 8), rng.choice(FACTORS[2:]), vals)
+            length += len(ops)
         p_bad = 0.5 if focus == "reject" else 0.06
 
         def idx(size, insert=False):
